@@ -532,3 +532,179 @@ Proof.
       (S (Z.to_nat k - length (trees_of pre []) - 1)) by lia.
     cbn [skipn]. now rewrite skipn_nil.
 Qed.
+
+(* ====================================================================== *)
+(* b. counting is order-independent                                        *)
+(* ====================================================================== *)
+
+Fixpoint pc_update_all (pc : pcounter) (parses : list (list str)) : result pcounter :=
+  match parses with
+  | [] => Ok pc
+  | p :: r => do pc' <- pc_update pc p; pc_update_all pc' r
+  end.
+
+(* what can be observed of a ParseCounter: the count of word string w for utterance i *)
+Definition view (pc : pcounter) (i : nat) (w : str) : Z :=
+  cget str_eqb (nth i (pc_counters pc) []) w.
+
+Definition pc_wf (pc : pcounter) : Prop := length (pc_counters pc) = pc_nutts pc.
+
+Lemma occ_perm : forall (w : str) (l1 l2 : list str),
+  Permutation l1 l2 -> occ str_eqb w l1 = occ str_eqb w l2.
+Proof.
+  intros w l1 l2 H. induction H; cbn [occ]; lia.
+Qed.
+
+Lemma bump_all_length : forall (cs : list (counter str)) (parse : list str),
+  length (bump_all cs parse) = length cs.
+Proof.
+  induction cs as [|c cr IH]; intros [|u pr]; cbn [bump_all length]; try reflexivity.
+  now rewrite IH.
+Qed.
+
+Lemma bump_all_view : forall (cs : list (counter str)) (parse : list str) (i : nat) (w : str),
+  length cs = length parse -> i < length cs ->
+  cget str_eqb (nth i (bump_all cs parse) []) w =
+  (cget str_eqb (nth i cs []) w + (if str_eqb w (nth i parse []) then 1 else 0))%Z.
+Proof.
+  induction cs as [|c cr IH]; intros [|u pr] i w Hlen Hi; cbn [length] in *; try lia.
+  cbn [bump_all]. destruct i as [|i]; cbn [nth].
+  - apply (cget_cadd str_eqb str_eqb_spec).
+  - apply IH; lia.
+Qed.
+
+Lemma bump_all_view_out : forall (cs : list (counter str)) (parse : list str) (i : nat),
+  length cs <= i -> nth i (bump_all cs parse) [] = [].
+Proof.
+  intros cs parse i H. apply nth_overflow. now rewrite bump_all_length.
+Qed.
+
+Lemma pc_update_wrong_length : forall (pc : pcounter) (parse : list str),
+  length parse <> pc_nutts pc -> pc_update pc parse = Raise RuntimeError.
+Proof.
+  intros pc parse H. unfold pc_update.
+  destruct (Nat.eqb_spec (length parse) (pc_nutts pc)); [contradiction|reflexivity].
+Qed.
+
+Lemma pc_update_ok : forall (pc : pcounter) (parse : list str),
+  pc_wf pc -> length parse = pc_nutts pc ->
+  exists pc' : pcounter,
+    pc_update pc parse = Ok pc' /\ pc_wf pc' /\ pc_nutts pc' = pc_nutts pc /\
+    pc_nparses pc' = (pc_nparses pc + 1)%Z /\
+    forall (i : nat) (w : str),
+      view pc' i w = (view pc i w + occ str_eqb w (if (i <? pc_nutts pc)%nat then [nth i parse []] else []))%Z.
+Proof.
+  intros pc parse Hwf Hlen. unfold pc_update. rewrite Hlen, Nat.eqb_refl. cbn [negb].
+  eexists. split; [reflexivity|]. unfold pc_wf, view in *. cbn [pc_counters pc_nutts pc_nparses].
+  split; [|split; [|split]]; try reflexivity.
+  - now rewrite bump_all_length.
+  - intros i w. destruct (Nat.ltb_spec i (pc_nutts pc)) as [Hi|Hi].
+    + rewrite bump_all_view by lia. cbn [occ]. lia.
+    + rewrite bump_all_view_out by lia. rewrite nth_overflow by lia. cbn [occ cget]. lia.
+Qed.
+
+Theorem pc_update_all_counts : forall (parses : list (list str)) (pc : pcounter),
+  pc_wf pc ->
+  Forall (fun p : list str => length p = pc_nutts pc) parses ->
+  exists pc' : pcounter,
+    pc_update_all pc parses = Ok pc' /\ pc_wf pc' /\ pc_nutts pc' = pc_nutts pc /\
+    pc_nparses pc' = (pc_nparses pc + Z.of_nat (length parses))%Z /\
+    forall (i : nat) (w : str),
+      view pc' i w =
+      (view pc i w +
+       if (i <? pc_nutts pc)%nat then occ str_eqb w (map (fun p : list str => nth i p []) parses) else 0)%Z.
+Proof.
+  induction parses as [|p r IH]; intros pc Hwf Hall.
+  - exists pc. cbn [pc_update_all length map occ].
+    split; [reflexivity|]. split; [exact Hwf|]. split; [reflexivity|]. split; [lia|].
+    intros i w. destruct (i <? pc_nutts pc); lia.
+  - inversion Hall as [|? ? Hp Hr]; subst.
+    destruct (pc_update_ok pc p Hwf Hp) as (pc1 & H1 & Hwf1 & Hn1 & Hnp1 & Hv1).
+    rewrite <- Hn1 in Hr.
+    destruct (IH pc1 Hwf1 Hr) as (pc2 & H2 & Hwf2 & Hn2 & Hnp2 & Hv2).
+    exists pc2. cbn [pc_update_all]. rewrite H1. cbn [bind].
+    split; [|split; [|split; [|split]]].
+    + exact H2.
+    + exact Hwf2.
+    + congruence.
+    + rewrite Hnp2, Hnp1. cbn [length]. lia.
+    + intros i w. rewrite Hv2, Hv1, Hn1. cbn [map occ].
+      destruct (i <? pc_nutts pc); cbn [occ]; lia.
+Qed.
+
+Lemma pc_init_wf : forall nutts : nat, pc_wf (pc_init nutts).
+Proof. intros n. unfold pc_wf, pc_init. cbn [pc_counters pc_nutts]. apply repeat_length. Qed.
+
+Lemma pc_init_view : forall (nutts i : nat) (w : str), view (pc_init nutts) i w = 0%Z.
+Proof.
+  intros n i w. unfold view, pc_init. cbn [pc_counters].
+  assert (H : nth i (repeat (@nil (str * Z)) n) [] = []).
+  { revert i. induction n as [|n IH]; intros [|i]; cbn [repeat nth]; auto. }
+  unfold counter. rewrite H. reflexivity.
+Qed.
+
+(* after processing a list of parses, each counter holds the number of
+   occurrences, and nparses the number of parses *)
+Theorem pc_counts : forall (nutts : nat) (parses : list (list str)),
+  Forall (fun p : list str => length p = nutts) parses ->
+  exists pc : pcounter,
+    pc_update_all (pc_init nutts) parses = Ok pc /\
+    pc_nparses pc = Z.of_nat (length parses) /\
+    forall (i : nat) (w : str), i < nutts ->
+      view pc i w = occ str_eqb w (map (fun p : list str => nth i p []) parses).
+Proof.
+  intros n parses Hall.
+  destruct (pc_update_all_counts parses (pc_init n) (pc_init_wf n) Hall)
+    as (pc & H & _ & _ & Hnp & Hv).
+  exists pc. split; [exact H|]. split; [exact Hnp|].
+  intros i w Hi. rewrite Hv, pc_init_view. cbn [pc_init pc_nutts].
+  destruct (Nat.ltb_spec i n); [reflexivity|lia].
+Qed.
+
+Theorem count_perm_invariant : forall (nutts : nat) (ps1 ps2 : list (list str)) (pc1 pc2 : pcounter),
+  Permutation ps1 ps2 ->
+  Forall (fun p : list str => length p = nutts) ps1 ->
+  pc_update_all (pc_init nutts) ps1 = Ok pc1 ->
+  pc_update_all (pc_init nutts) ps2 = Ok pc2 ->
+  pc_nparses pc1 = pc_nparses pc2 /\
+  forall (i : nat) (w : str), view pc1 i w = view pc2 i w.
+Proof.
+  intros n ps1 ps2 pc1 pc2 Hp Hall1 H1 H2.
+  assert (Hall2 : Forall (fun p : list str => length p = n) ps2)
+    by (eapply Permutation_Forall; eauto).
+  destruct (pc_update_all_counts ps1 (pc_init n) (pc_init_wf n) Hall1)
+    as (pc1' & H1' & _ & _ & Hnp1 & Hv1).
+  destruct (pc_update_all_counts ps2 (pc_init n) (pc_init_wf n) Hall2)
+    as (pc2' & H2' & _ & _ & Hnp2 & Hv2).
+  rewrite H1 in H1'. injection H1' as <-. rewrite H2 in H2'. injection H2' as <-.
+  split.
+  - rewrite Hnp1, Hnp2. now rewrite (Permutation_length Hp).
+  - intros i w. rewrite Hv1, Hv2. destruct (i <? pc_nutts (pc_init n)); [|reflexivity].
+    f_equal. apply occ_perm. apply Permutation_map. exact Hp.
+Qed.
+
+(* a parse of the wrong length makes update raise, whatever came before *)
+Lemma pc_update_all_nutts : forall (parses : list (list str)) (pc pc' : pcounter),
+  pc_update_all pc parses = Ok pc' -> pc_nutts pc' = pc_nutts pc.
+Proof.
+  induction parses as [|p r IH]; intros pc pc' H; cbn [pc_update_all] in H.
+  - injection H as <-. reflexivity.
+  - destruct (pc_update pc p) as [pc1|] eqn:H1; [|discriminate]. cbn [bind] in H.
+    rewrite (IH pc1 pc' H). unfold pc_update in H1.
+    destruct (negb (length p =? pc_nutts pc)); [discriminate|]. injection H1 as <-. reflexivity.
+Qed.
+
+(* postprocess = update with the complete parses only *)
+Theorem postprocess_update_all : forall (pc : pcounter) (lines : list str) (ig : Z),
+  pc_update_all pc (filter (fun p : list str => Nat.eqb (length p) (pc_nutts pc)) (yield_parses lines ig))
+  = Ok (postprocess pc lines ig).
+Proof.
+  intros pc lines ig. unfold postprocess. generalize (yield_parses lines ig) as ps.
+  intros ps. revert pc. induction ps as [|p r IH]; intros pc; [reflexivity|].
+  cbn [filter fold_left]. destruct (Nat.eqb_spec (length p) (pc_nutts pc)) as [Hl|Hl].
+  - assert (H1 : exists pc1 : pcounter, pc_update pc p = Ok pc1 /\ pc_nutts pc1 = pc_nutts pc).
+    { unfold pc_update. rewrite Hl, Nat.eqb_refl. eexists; split; reflexivity. }
+    destruct H1 as (pc1 & H1 & Hn1). cbn [pc_update_all]. rewrite H1. cbn [bind].
+    rewrite <- Hn1. apply IH.
+  - apply IH.
+Qed.
